@@ -69,7 +69,7 @@ package keeper
 // leading transactions are byte-for-byte their encodings, in that order, numbered from the modules' current nonces.
 //@ func (Keeper).VerifyDequeue
 //@ requires counters: st.bitcoin.EthTxNonce < 9223372036854775808 && st.locking.EthTxNonce < 9223372036854775808
-//@ property C06 C08 C09
+//@ property C06 C08 C09 C19
 //@ let BN = old(st.bitcoin.EthTxNonce)
 //@ let LN = old(st.locking.EthTxNonce)
 //@ let h = hcnt(old(st.bitcoin.EthTxQueue.BlockNumber), st.bitcoin.BlockTip)
@@ -93,6 +93,8 @@ package keeper
 //@ loop 1 invariant cnt: goatTxLen == bat(txRoot, 0) - len(btcTxs) - (rangeindex + 1)
 //@ loop 1 invariant bytes: by_list(old(txs), len(btcTxs), lockingTxs, rangeindex + 1)
 //@ modifies st.bitcoin.EthTxQueue, st.bitcoin.EthTxNonce, st.locking.EthTxQueue, st.locking.EthTxNonce
+// runs inside the ProcessProposal goroutines, where nothing recovers a panic (C19)
+//@ nopanic
 
 // ---- C09: at the end of every block the engine is told exactly the recorded head -------------------------
 // Engine answers are uninterpreted functions of the call number on the path and of the arguments
